@@ -39,4 +39,15 @@ Proof.
   change (num_rank_src Op canonical_lv sv nr nc eps) with (num_rank Op sv nr nc eps).
   destruct (Nat.eqb (num_rank Op sv nr nc eps) 0); [reflexivity|]. destruct low; reflexivity.
 Qed.
+
+Theorem cp_permute_factors_src_canonical (ref fs : list (mat F)) w nas nbs assign :
+  cp_permute_factors_src Op canonical_pp ref fs w nas nbs assign = cp_permute_factors Op ref fs w nas nbs assign.
+Proof. reflexivity. Qed.
+
+Theorem cp_permute_factors_list_src_canonical (ref : list (mat F)) nas ts assign :
+  cp_permute_factors_list_src Op canonical_pp ref nas ts assign = cp_permute_factors_list Op ref nas ts assign.
+Proof.
+  induction ts as [|[[w fs] nbs] ts IH]; [reflexivity|]. cbn [cp_permute_factors_list_src cp_permute_factors_list].
+  now rewrite IH, cp_permute_factors_src_canonical.
+Qed.
 End T.
